@@ -102,14 +102,16 @@ func (this *Server) setup() error {
 		return err
 	}
 
-	if err := this.zeroGroup.Start(); err != nil {
-		return err
-	}
-
 	this.nodesManager = raft.NewNodesManager(this.clusterConn, this.zeroGroup)
 
 	this.datasetManager, err = storage.NewDatasetManager(sharedGroup.Get("datasets"), this.db, raftTransport, this.clusterConn, this.allocator)
 	if err != nil {
+		return err
+	}
+
+	// Start the zero group only after its consumers are registered: Start loads the stored
+	// snapshot and begins replaying the log into them
+	if err := this.zeroGroup.Start(); err != nil {
 		return err
 	}
 
